@@ -5,7 +5,7 @@ Line-protocol driver for C05 (collocate_filesets pipeline).  One output line per
   chunks k n
       -> sizes of `np.array_split(range(n), k)` separated by blanks ("-" if k chunks of
          nothing... never: k ≥ 1 gives k numbers), "value-error" for k = 0
-  match mi start end n1 lo hi ... n2 lo hi ...
+  match mi start end n1 lo hi ... n2 lo hi ...      (start/end: µs since 1970 or "-" = None)
       -> "i:j,j i:j ..." (indices into the given lists), "-" if no match, "no-files"
   cf b skip procs M p:s,s ... R p:s:rid:day ... BP p ... BS s ...
       b ∈ {n,p,d}; skip ∈ {0,1}; procs = number or "-" (None)
@@ -82,7 +82,8 @@ def doCf (ws : List String) : String :=
 def doMatch (ws : List String) : String :=
   match ws with
   | mi :: st :: en :: n1 :: rest =>
-    match mi.toInt?, st.toInt?, en.toInt?, n1.toNat?, parseInts rest with
+    let optInt : String → Option (Option Int) := fun t => if t = "-" then some none else t.toInt?.map some
+    match mi.toInt?, optInt st, optInt en, n1.toNat?, parseInts rest with
     | some mi, some st, some en, some n1, some xs =>
       let a := xs.take (2 * n1)
       match xs.drop (2 * n1) with
